@@ -15,7 +15,7 @@ pub fn meta() -> Meta {
     Meta {
         id: "C15",
         level: "exploration",
-        rule: "complete enumeration of the finite domains: 4x256 cells of IUPAC, 256 cells of RC_IUPAC, is_ambiguous/base_to_prob on all IUPAC letters+U+gap in both cases, encode/decode/rc/valid on A,C,G,T,U,N both cases; then every ordered sequence of <=4 observed middle bases (both strand modes, incl. self-reverse-complement arms) through a real build, and every code x orientation through the real map strand correction. Non-trivial = a cell/case whose expected value is not the default (0 / '-' / not ambiguous). The weights where they are applied: `ska distance --allow-ambiguous` on a three-sample row (x, y, z) for every ordered pair of the 15 codes (z makes the site variable) prints exactly 1 - sum_b p_x(b) p_y(b) for each pair.".into(),
+        rule: "complete enumeration of the finite domains: 4x256 cells of IUPAC, 256 cells of RC_IUPAC, is_ambiguous/base_to_prob on all IUPAC letters+U+gap in both cases, encode/decode/rc/valid on A,C,G,T,U,N both cases; then every ordered sequence of <=4 observed middle bases (both strand modes, incl. self-reverse-complement arms) through a real build, and every code x orientation through the real map strand correction. Non-trivial = a cell/case whose expected value is not the default (0 / '-' / not ambiguous). The weights where they are applied: `ska distance --allow-ambiguous` on a three-sample row (x, y, z) for every ordered pair of the 15 codes (z makes the site variable) prints exactly 1 - sum_b p_x(b) p_y(b) for each pair; and on every table of two such sites (x1, y1, z1), (x2, y2, z2) over the 15 codes, in both row orders, the sum over the two sites.".into(),
         assumptions: vec!["U is not part of the union algebra: RC_IUPAC[U] may be 'A' or '-'".into(),
             "lower-case distance weights may be uniform-over-set or all-zero (stored bases are always upper case)".into()],
         exhaustive_when_uncapped: true,
@@ -261,6 +261,52 @@ pub fn run(_ctx: &Ctx, rep: &mut Report) {
                         format!("ska distance --allow-ambiguous on the row ({}, {}, {}): {:?}, the uniform weights give {:?}", *x as char, *y as char, z as char, other, want),
                         json!({"part":"distance-weights","x":*x as char,"y":*y as char}),
                     ),
+                }
+            }
+        }
+    }
+    // 9. the weights are applied per site: two ambiguous sites in one table, every (x1, y1, x2, y2) over the 15 codes, in
+    // both row orders (a third sample keeps both sites variable): each pairwise distance is the sum of the two sites'
+    {
+        let weight = |c: u8| -> [f64; 4] {
+            let set = if c == b'N' { 0 } else { set_of(c).unwrap_or(0) };
+            let n = set.count_ones() as f64;
+            let mut w = [0.0; 4];
+            for (i, b) in [b'A', b'C', b'G', b'T'].iter().enumerate() {
+                if set & set_of(*b).unwrap() != 0 {
+                    w[i] = 1.0 / n;
+                }
+            }
+            w
+        };
+        let dist = |a: u8, b: u8| -> f64 { 1.0 - weight(a).iter().zip(weight(b)).map(|(p, q)| p * q).sum::<f64>() };
+        let third = |x: u8, y: u8| -> u8 { if x != y { x } else if x == b'A' { b'C' } else { b'A' } };
+        let symbols: Vec<u8> = IUPAC_SETS.iter().map(|(c, _)| *c).collect();
+        for x1 in &symbols {
+            for y1 in &symbols {
+                let z1 = third(*x1, *y1);
+                for x2 in &symbols {
+                    for y2 in &symbols {
+                        let z2 = third(*x2, *y2);
+                        for keys in [["ACGA", "CAAG"], ["CAAG", "ACGA"]] {
+                            rep.evaluations += 1;
+                            rep.nontrivial += 1;
+                            let mut rows = std::collections::BTreeMap::new();
+                            rows.insert(keys[0].to_string(), vec![*x1, *y1, z1]);
+                            rows.insert(keys[1].to_string(), vec![*x2, *y2, z2]);
+                            let t = Table { k, rc: true, names: vec!["s0".into(), "s1".into(), "s2".into()], rows };
+                            let want: Vec<String> = [(0usize, 1usize, dist(*x1, *y1) + dist(*x2, *y2)), (0, 2, dist(*x1, z1) + dist(*x2, z2)), (1, 2, dist(*y1, z1) + dist(*y2, z2))].iter().map(|(i, j, d)| format!("s{i}\ts{j}\t{:.2}\t{:.5}", d, 0.0)).collect();
+                            rep.outcome(&("weights2", want.clone()));
+                            match super::c14::real_distance(&t, 0.0, true) {
+                                Ok(got) if got == want => {}
+                                other => rep.violate(
+                                    format!("distance-weights-two-sites {}{} {}{} {}", *x1 as char, *y1 as char, *x2 as char, *y2 as char, keys[0]),
+                                    format!("ska distance --allow-ambiguous on the rows {}=({}, {}, {}) and {}=({}, {}, {}): {:?}, the uniform weights summed over the two sites give {:?}", keys[0], *x1 as char, *y1 as char, z1 as char, keys[1], *x2 as char, *y2 as char, z2 as char, other, want),
+                                    json!({"part":"distance-weights-two-sites","x1":*x1 as char,"y1":*y1 as char,"x2":*x2 as char,"y2":*y2 as char,"first_key":keys[0]}),
+                                ),
+                            }
+                        }
+                    }
                 }
             }
         }
